@@ -167,6 +167,29 @@ def run(ctx):
         r.ok('no store through a pointer read from the registry list (insertion at the head / removal walk the list inside one section)', loc=em.src, trivial=True)
     r.require_min(1)
 
+    # ---------------- R18f readers do not write shared state
+    r = ctx.rule('R18f', 'no global variable is written while the registry lock is held in read mode only',
+                 'a look-up cache updated by readers is a data race between two readers: both hold the lock, neither excludes the other')
+    nrd = 0
+    for f in P.fns.values():
+        if f.mod is not em or f.name in exempt:
+            continue
+        for ins in f.insts():
+            if ins.op != 'store':
+                continue
+            held = LS.held_at(ins) or {}
+            if held.get(reglock) != 'R':
+                continue
+            root, steps = access_path(P, f, ins.ops[1])
+            if root and root.startswith('@'):
+                nrd += 1
+                r.fail(f'{f.name}: store to {root} under the read lock', func=f.name, sig=f'global {root} written under the read lock', loc=ins.loc,
+                       msg=f'{root} is written at line {ins.line} while {reglock} is held for reading only: concurrent readers race on it')
+    rdfns = sorted({f.name for f in P.fns.values() if f.mod is em for i in f.insts() if (LS.held_at(i) or {}).get(reglock) == 'R'})
+    if not nrd:
+        r.ok(f'read-locked regions ({", ".join(rdfns)[:120]}) write no global', loc=em.src, facts={'functions_with_read_sections': rdfns})
+    r.require_min(1)
+
     # ---------------- R18b
     r = ctx.rule('R18b', 'GF table refcount and table (de)allocation are serialised by one mutex',
                  'two first creates (or create vs last destroy) race on init_counter/log_table: double alloc, NULL table, use after free')
@@ -246,3 +269,4 @@ def run(ctx):
     r.require_min(2, 'returns of locking functions')
     ctx.extra['entry_points'] = pub
     ctx.extra['registry_lock'] = reglock
+    ctx.borrow('c15', ['R15d'], 'operations on different instances share no writable static state')
